@@ -215,25 +215,57 @@ theorem copy_limit : Gen.DateNames.copyN - 1 = 63 := by decide
 
 /-! ### `parse_date_elements` on a well-formed time of day -/
 
-/-- the fields pass `tmSaneValues` -/
-def saneFields (dd hh mm ss : Nat) : Prop := ss ≤ 59 ∧ mm ≤ 59 ∧ hh ≤ 23 ∧ 1 ≤ dd ∧ dd ≤ 31
+/-- the fields pass `tmSaneValues`: time of day in range, the day exists in month `m` of a (leap / common) year -/
+def saneFields (leap : Bool) (m dd hh mm ss : Nat) : Prop :=
+  ss ≤ 59 ∧ mm ≤ 59 ∧ hh ≤ 23 ∧ 1 ≤ dd ∧ dd ≤ monthLen leap m
 
-instance (dd hh mm ss : Nat) : Decidable (saneFields dd hh mm ss) := by unfold saneFields; exact inferInstance
+instance (leap : Bool) (m dd hh mm ss : Nat) : Decidable (saneFields leap m dd hh mm ss) := by
+  unfold saneFields; exact inferInstance
+
+/-- the common-year probe of `tmSaneValues` is explained by the leap-year probe and the Feb-29 rule -/
+theorem monthDays_probes :
+    Gen.DateNames.monthDaysCommon = Gen.DateNames.monthDays.zipIdx.map (fun p => if p.2 = 1 then p.1 - 1 else p.1) := by
+  decide
+
+/-- the regenerated `monthDays[]` table plus the Feb-29 rule of `tmSaneValues` is the length of the month -/
+theorem monthDays_rule (leap : Bool) {m : Nat} (hm : m < 12) (dd : Nat) (h1 : 1 ≤ dd) :
+    (((dd : Int) ≤ Gen.DateNames.monthDays.getD m 0) ∧ ¬ (m = 1 ∧ dd = 29 ∧ leap = false)) ↔ dd ≤ monthLen leap m := by
+  have : m = 0 ∨ m = 1 ∨ m = 2 ∨ m = 3 ∨ m = 4 ∨ m = 5 ∨ m = 6 ∨ m = 7 ∨ m = 8 ∨ m = 9 ∨ m = 10 ∨ m = 11 := by omega
+  rcases this with h | h | h | h | h | h | h | h | h | h | h | h <;> subst h <;> cases leap <;>
+    simp [Gen.DateNames.monthDays, monthLen] <;> omega
 
 theorem tmSane_iff (ty : Int) {m dd hh mm ss : Nat} (hm12 : m < 12) :
-    tmSane { year := ty, mon := m, mday := dd, hour := hh, min := mm, sec := ss } = true ↔ saneFields dd hh mm ss := by
-  simp only [tmSane, Bool.and_eq_true, decide_eq_true_eq, saneFields]
+    tmSane { year := ty, mon := m, mday := dd, hour := hh, min := mm, sec := ss } = true ↔
+      saneFields (isLeapI (1900 + ty)) m dd hh mm ss := by
+  simp only [tmSane, Bool.and_eq_true, decide_eq_true_eq, saneFields, Bool.not_eq_true', Bool.and_eq_false_imp,
+    beq_iff_eq, Int.toNat_natCast]
   simp only [Gen.DateNames.secMin, Gen.DateNames.secMax, Gen.DateNames.minMin, Gen.DateNames.minMax,
     Gen.DateNames.hourMin, Gen.DateNames.hourMax, Gen.DateNames.mdayMin, Gen.DateNames.mdayMax,
     Gen.DateNames.monMin, Gen.DateNames.monMax]
-  omega
+  have hml := monthLen_pos (isLeapI (1900 + ty)) m
+  constructor
+  · intro h
+    have h1 : 1 ≤ dd := by omega
+    have := (monthDays_rule (isLeapI (1900 + ty)) hm12 dd h1).1 ⟨h.1.2, by
+      intro ⟨a, b, c⟩
+      have := h.2 ⟨by omega, by omega⟩
+      simp [c] at this⟩
+    omega
+  · intro h
+    have h1 : 1 ≤ dd := by omega
+    have := (monthDays_rule (isLeapI (1900 + ty)) hm12 dd h1).2 h.2.2.2.2
+    refine ⟨⟨by omega, this.1⟩, ?_⟩
+    intro a
+    cases hl : isLeapI (1900 + ty)
+    · exact absurd ⟨by omega, by omega, hl⟩ this.2
+    · rfl
 
 theorem elements_general {wd : Option Bytes} {dayTok mon yearTok : Bytes} {zone : Option Bytes} {dd m hh mm ss : Nat} {ty : Int}
     (hz : zone = none ∨ zone = some gmtBytes) (hday : atoi dayTok = (dd : Int)) (hmon : makeMonth mon = (m : Int)) (hm12 : m < 12)
     (hyear : adjustYear yearTok = ty) (hhh : hh < 100) (hmm : mm < 100) (hss : ss < 100) :
     parseDateElements { wday := wd, day := some dayTok, month := some mon, year := some yearTok,
                         time := some (timeOfDay hh mm ss), zone := zone } =
-      if saneFields dd hh mm ss then some { year := ty, mon := m, mday := dd, hour := hh, min := mm, sec := ss } else none := by
+      if saneFields (isLeapI (1900 + ty)) m dd hh mm ss then some { year := ty, mon := m, mday := dd, hour := hh, min := mm, sec := ss } else none := by
   obtain ⟨t1, t2, t3, t4⟩ := time_fields hh mm ss hmm hss
   have hnum : makeNum (timeOfDay hh mm ss) = (hh : Int) := makeNum_time hh hhh _
   have hzone : zoneBad zone = false := by
@@ -242,7 +274,7 @@ theorem elements_general {wd : Option Bytes} {dayTok mon yearTok : Bytes} {zone 
     · decide
   have hneg : ¬ ((m : Int) < 0) := by omega
   simp only [parseDateElements, hzone, hday, hmon, hyear, hnum, t1, t2, t3, t4, hneg, if_false, Bool.false_eq_true]
-  by_cases hs : saneFields dd hh mm ss
+  by_cases hs : saneFields (isLeapI (1900 + ty)) m dd hh mm ss
   · rw [if_pos ((tmSane_iff ty hm12).2 hs), if_pos hs]
   · rw [if_neg (fun h => hs ((tmSane_iff ty hm12).1 h)), if_neg hs]
 
@@ -299,7 +331,7 @@ theorem length_time (hh mm ss : Nat) : (timeOfDay hh mm ss).length = 8 := by sim
 theorem parse_imf {w : Bytes} {m dd yyyy hh mm ss : Nat} (hw : w ∈ dayNames) (hm : m < 12)
     (hdd : dd < 100) (hy : yyyy < 10000) (hhh : hh < 100) (hmm : mm < 100) (hss : ss < 100) :
     parseRfc1123 (imfFixdate w dd (monthAbbr.getD m []) yyyy hh mm ss) =
-      if saneFields dd hh mm ss then timegm yyyy m dd hh mm ss else -1 := by
+      if saneFields (isLeap yyyy) m dd hh mm ss then timegm yyyy m dd hh mm ss else -1 := by
   have hwo := dayNames_ok w hw
   obtain ⟨hmo, hmk⟩ := month_ok m hm
   have hlen : (imfFixdate w dd (monthAbbr.getD m []) yyyy hh mm ss).length ≤ 63 := by
@@ -312,7 +344,7 @@ theorem parse_imf {w : Bytes} {m dd yyyy hh mm ss : Nat} (hw : w ∈ dayNames) (
     (elements_general (Or.inr rfl) hd hmk hm (adjustYear_dec4 yyyy hy) hhh hmm hss)
   rw [this]
   have e : (1900 : Int) + ((yyyy : Int) - 1900) = (yyyy : Int) := by omega
-  simp only [e, Int.toNat_natCast]
+  simp only [e, Int.toNat_natCast, isLeapI_natCast]
 
 /-! ### rfc850-date -/
 
@@ -369,7 +401,7 @@ def squidYear (yy : Nat) : Nat := if yy < 70 then 2000 + yy else 1900 + yy
 theorem parse_850 {w : Bytes} {m dd yy hh mm ss : Nat} (hw : w ∈ dayNamesLong) (hm : m < 12)
     (hdd : dd < 100) (hy : yy < 100) (hhh : hh < 100) (hmm : mm < 100) (hss : ss < 100) :
     parseRfc1123 (rfc850Date w dd (monthAbbr.getD m []) yy hh mm ss) =
-      if saneFields dd hh mm ss then timegm (squidYear yy) m dd hh mm ss else -1 := by
+      if saneFields (isLeap (squidYear yy)) m dd hh mm ss then timegm (squidYear yy) m dd hh mm ss else -1 := by
   have hwo := dayNamesLong_ok w hw
   obtain ⟨hmo, hmk⟩ := month_ok m hm
   have hlen : (rfc850Date w dd (monthAbbr.getD m []) yy hh mm ss).length ≤ 63 := by
@@ -383,7 +415,7 @@ theorem parse_850 {w : Bytes} {m dd yy hh mm ss : Nat} (hw : w ∈ dayNamesLong)
   rw [this]
   have e : (1900 : Int) + (if yy < 70 then (yy : Int) + 100 else (yy : Int)) = ((squidYear yy : Nat) : Int) := by
     unfold squidYear; split <;> omega
-  simp only [e, Int.toNat_natCast]
+  simp only [e, Int.toNat_natCast, isLeapI_natCast]
 
 /-! ### asctime-date -/
 
@@ -425,7 +457,7 @@ theorem parse_asc {w dayTok : Bytes} {m dd yyyy hh mm ss : Nat} (hw : w ∈ dayN
     (hdd : dd < 100) (hy : yyyy < 10000) (hhh : hh < 100) (hmm : mm < 100) (hss : ss < 100)
     (hday : dayTok = dec2 dd ∨ (dd < 10 ∧ dayTok = [32, dch dd])) :
     parseRfc1123 (asctimeDate w (monthAbbr.getD m []) dayTok hh mm ss yyyy) =
-      if saneFields dd hh mm ss then timegm yyyy m dd hh mm ss else -1 := by
+      if saneFields (isLeap yyyy) m dd hh mm ss then timegm yyyy m dd hh mm ss else -1 := by
   have hwo := dayNames_ok w hw
   obtain ⟨hmo, hmk⟩ := month_ok m hm
   have hdl : dayTok.length = 2 := by
@@ -447,7 +479,7 @@ theorem parse_asc {w dayTok : Bytes} {m dd yyyy hh mm ss : Nat} (hw : w ∈ dayN
     have := parse_of_run hlen (by rw [htok]; exact run_asc hwo hmo (dayTok := dec2 dd) (isDigit_dch (dd / 10)) (hasByte_dec2 45 (by decide) dd) hh mm ss yyyy)
       (elements_general (Or.inl rfl) hd hmk hm (adjustYear_dec4 yyyy hy) hhh hmm hss)
     rw [this]
-    simp only [e, Int.toNat_natCast]
+    simp only [e, Int.toNat_natCast, isLeapI_natCast]
   · rw [if_neg h2] at htok
     have hlt : dd < 10 := by
       rcases hday with h | ⟨h, _⟩
@@ -457,15 +489,14 @@ theorem parse_asc {w dayTok : Bytes} {m dd yyyy hh mm ss : Nat} (hw : w ∈ dayN
       (by rw [htok]; exact run_asc hwo hmo (dayTok := [dch dd]) (isDigit_dch dd) (by simp [hasByte, dch_ne 45 (by decide)]) hh mm ss yyyy)
       (elements_general (Or.inl rfl) (atoi_dch1 dd hlt) hmk hm (adjustYear_dec4 yyyy hy) hhh hmm hss)
     rw [this]
-    simp only [e, Int.toNat_natCast]
+    simp only [e, Int.toNat_natCast, isLeapI_natCast]
 
 /-! ### what `timegm` returns for an existing date -/
 
-/-- `timegm` of sane fields with an existing day is the time they denote -/
-theorem denotes_timegm {yyyy m dd hh mm ss : Nat} (hm : m < 12)
-    (hs : saneFields dd hh mm ss) (hday : dd ≤ monthLen (isLeap yyyy) m) :
+/-- `timegm` of fields that pass `tmSaneValues` is the time they denote -/
+theorem denotes_timegm {yyyy m dd hh mm ss : Nat} (hm : m < 12) (hs : saneFields (isLeap yyyy) m dd hh mm ss) :
     Denotes yyyy m dd hh mm ss (timegm yyyy m dd hh mm ss) := by
-  have hv : validDate yyyy m dd := ⟨hm, hs.2.2.2.1, hday⟩
+  have hv : validDate yyyy m dd := ⟨hm, hs.2.2.2.1, hs.2.2.2.2⟩
   have hf := fieldsOf_timegm hv (h := hh) (mi := mm) (s := ss) (by have := hs.2.2.1; omega) (by have := hs.2.1; omega) (by have := hs.1; omega)
   refine ⟨?_, hf⟩
   have hd := timegm_days hv
